@@ -399,6 +399,24 @@ def run(ctx):
         ctx.count('expc' if ens else 'xpc')
         if not validate(ctx, root, nv, rep, ('learn_expc' if ens else 'learn_xpc') + f'({cfg})', sd=sd_eff):
             continue
+        if ens and rep.get('sd_level') == 1 and isinstance(root, Sum):
+            # "a non-SD ensemble of SD PCs": structured decomposability was requested for every component of the mixture
+            comp_bad = None
+            for ci, comp in enumerate(root.children):
+                nodes_c = S.bfs_order(comp)
+                scopes = [list(n.scope) for n in nodes_c if isinstance(n, Product)]
+                for n in nodes_c:
+                    if isinstance(n, BinaryCLT):
+                        scopes += [list(s_) for s_ in n.get_scopes()]
+                b = laminar(scopes)
+                if b:
+                    comp_bad = (ci, b)
+                    break
+            ctx.count('ensemble-components-checked-for-structured-decomposability')
+            if comp_bad:
+                ctx.violation('c04-not-structured:component', f'learn_expc({cfg}, sd_level=1): component {comp_bad[0]} has product scopes {comp_bad[1][0]} and '
+                                                              f'{comp_bad[1][1]} that are neither nested nor disjoint', replay=rep)
+                continue
         # correspondence with the Lean model of build_xpc: the partition tree the learner produced (oracle) is replayed
         if utils is not None and ctx.driver_ok:
             drv = ctx.get_driver()
